@@ -54,7 +54,7 @@ def rand_payload(rng, n):
 
 
 def rand_junk(rng):
-    kind = rng.choice(['nmea', 'nmea_bad', 'noise', 'loneb5', 'b5tail', 'text', 'sync2', 'b5b5'])
+    kind = rng.choice(['nmea', 'nmea_bad', 'noise', 'loneb5', 'b5tail', 'text', 'sync2', 'b5b5', 'nmea_open', 'crlf', 'nmea_blank'])
     if kind == 'nmea':
         g = nmea(bytes(rng.choice(b'GPRMC,0123456789.ANE') for _ in range(rng.randrange(1, 40))))
     elif kind == 'nmea_bad':
@@ -67,6 +67,12 @@ def rand_junk(rng):
         g = bytes(rng.getrandbits(8) for _ in range(rng.randrange(0, 8))) + bytes([SYNC1])
     elif kind == 'text':
         g = b'hello world\n'
+    elif kind == 'nmea_open':
+        g = rng.choice([b'$GPGGA,12', b'$GNTXT,01,01,02,u-blox AG ', b'\r\n$GPRMC,'])     # a sentence start without its line end
+    elif kind == 'crlf':
+        g = rng.choice([b'\r\n', b'\n', b' \r\n '])
+    elif kind == 'nmea_blank':
+        g = nmea(b'GNTXT,01,01,02, u-blox AG - www.u-blox.com ')
     elif kind == 'sync2':
         g = bytes([SYNC2, SYNC2, SYNC1])
     else:
@@ -149,7 +155,10 @@ def rand_filter(rng, segs=()):
     if r < 0.14:
         return []
     if r < 0.6 and cids:
-        return sorted(set(rng.sample(cids, rng.randrange(1, len(cids) + 1))))
+        f = sorted(set(rng.sample(cids, rng.randrange(1, len(cids) + 1))))
+        if rng.random() < 0.25:
+            f = f + [f[0]] + f[:1]          # the same class/id listed more than once
+        return f
     if r < 0.8:
         return sorted(set(cids + [(5, 1), (5, 0)]))
     return [rng.choice(CIDS)]
@@ -280,6 +289,14 @@ def impl_ubx(filt, ops, check_mutation=True):
                 seen.add(id(data))
                 held.append((data, bytes(data), cid, (cid.cls, cid.id)))
     outs = []
+    lists = {}
+
+    def the_list(cids):
+        # filter lists with the same content are the SAME Python list object throughout a run (callers keep and reuse them)
+        key = tuple(cids)
+        if key not in lists:
+            lists[key] = [UbxCID(c, i) for c, i in cids]
+        return lists[key]
     other = UbxParser(UbxCID(*CRC_CID))          # a second live parser: objects must not share state
     other.set_filters([UbxCID(6, 1)])
     n_op = 0
@@ -295,7 +312,7 @@ def impl_ubx(filt, ops, check_mutation=True):
         elif o[0] == 'F':
             p.set_filter(UbxCID(*o[1]))
         elif o[0] == 'FS':
-            p.set_filters([UbxCID(c, i) for c, i in o[1]])
+            p.set_filters(the_list(o[1]))
         elif o[0] == 'E':
             hold()
             p.empty_queue()
